@@ -95,6 +95,15 @@ pub fn make_pool(family: &str, dim: usize, seed: u64, n: usize) -> Vec<Vec<f64>>
                     })
                     .collect()
             }
+            // degenerate families shifted far along axis 0: the curve orderings quantise with one
+            // global (min, max), so distinct points share a Hilbert / Morton cell (ties) while
+            // staying exactly cospherical / on a lattice
+            "offcosph" | "offgrid" => {
+                let inner = if family == "offcosph" { "cosph" } else { "grid" };
+                let mut p = make_pool(inner, dim, seed ^ (0x0ff5e7 + guard as u64), 1).pop().unwrap_or_else(|| vec![0.0; dim]);
+                p[0] += (1u64 << 40) as f64;
+                p
+            }
             "wide" => (0..dim).map(|_| (rng.range_i64(0, 1023) as f64) * (1u64 << 30) as f64).collect(),
             "tiny" => (0..dim).map(|_| (rng.range_i64(0, 1023) as f64) / (1u64 << 30) as f64).collect(),
             "cluster" => {
